@@ -572,16 +572,40 @@ def gen_corruptions(ctx, rng, base, res, per_base: int):
             m_ = min(fetched) if base.mode == "vod" or res.loops == 0 else min(
                 sum(1 for s in r["segments"] if s["seq"] is not None) for r in doc_reps if r["id"] in ids)
             ts = int(tl.getparent().get("timescale", "1"))
+            # leading entries the validator gave up without a request (short segments): the edit goes behind them,
+            # where predecessor and successor are fetched
+            lead = 0
+            for r in doc_reps:
+                if r["id"] in ids:
+                    n_ = 0
+                    for sg in r["segments"]:
+                        if sg["validated"] and sg["dt"] is None and sg["seq"] is None:
+                            n_ += 1
+                        else:
+                            break
+                    lead = max(lead, n_)
+            if lead:
+                m_ = min(sum(1 for s in r["segments"][lead:] if s["seq"] is not None)
+                         for r in doc_reps if r["id"] in ids)
             if m_ >= 2:
                 cands.append({"kind": "timeline", "nth": 0, "which": which, "op": "gap",
-                              "index": rng.randrange(1, m_)})
+                              "index": lead + rng.randrange(1, m_)})
             if m_ >= 4:
                 # the segment after the edited one must still be generated and fetched (VOD generation
                 # stops once the *advertised* durations exceed the requested duration)
                 tolmax = max([s["tol"] for r in doc_reps if r["id"] in ids for s in r["segments"]] or [0])
                 amt = tolmax + ts // 4
-                cands.append({"kind": "timeline", "nth": 0, "which": which, "op": "dur",
-                              "index": rng.randrange(1, m_ - 2), "amount": rng.choice([amt, -amt, amt + ts // 4])})
+                # the server answers a $Time$ request with the segment that CONTAINS the time: what the later
+                # segments are off by is the amount modulo the segment duration – keep that beyond the tolerance
+                ds = {int(s_.get("d")) for s_ in tl.findall(M._q("S")) if s_.get("d")}
+                sd_ = min(ds) if ds else 0
+                amounts = [a_ for a_ in (amt, -amt, amt + ts // 4)
+                           if sd_ <= 0 or tolmax < (a_ % sd_) < sd_ - tolmax]
+                if not amounts and sd_ // 2 > tolmax:
+                    amounts = [sd_ // 2]
+                if amounts:
+                    cands.append({"kind": "timeline", "nth": 0, "which": which, "op": "dur",
+                                  "index": lead + rng.randrange(1, m_ - 2), "amount": rng.choice(amounts)})
     n_manifests = sum(1 for ex in res.exchanges if ex.cls == "manifest")
     cross = []
     if base.mode == "live" and n_manifests >= 2:
@@ -731,6 +755,33 @@ def listed_slack_us(res, url: str):
     return None
 
 
+def given_up_before_edit(res, c) -> dict:
+    """timeline edit at entry k of a live session: when the entries up to k-1 (the predecessor the edit is
+    measured against) were all declared validated without a request, the edit was never looked at – report the
+    largest slack among those segments (the class of ledger short-segments-oldest-skipped)"""
+    if not res.passes:
+        return {}
+    p0 = res.passes[0]["post"]
+    owner_id = (res.applied or {}).get("owner_id")
+    worst = None
+    for rep in p0["reps"]:
+        if rep.get("timeline") is None:
+            continue
+        if owner_id is not None and not (rep["id"] == owner_id or (res.applied or {}).get("owner") == "AdaptationSet"):
+            continue
+        lead = 0
+        for sg in rep["segments"]:
+            if sg["validated"] and sg["dt"] is None and sg["seq"] is None:
+                lead += 1
+            else:
+                break
+        if lead >= c["index"] and lead > 0:
+            sl = [listed_slack_us(res, sg["url"]) for sg in rep["segments"][:lead]]
+            if all(x is not None for x in sl):
+                worst = max(sl + ([worst] if worst is not None else []))
+    return {} if worst is None else {"slack_us": worst, "unexamined": True}
+
+
 def oracle(case, res) -> list:
     """the property text on one session → list of failures (dicts)"""
     fails = []
@@ -764,7 +815,7 @@ def oracle(case, res) -> list:
         if u and u["status"] == 200 and u.get("given_up") and not res.errors and not res.crashed:
             fail("a segment the manifest lists and the server serves was declared validated without being "
                  "examined: a corruption of it cannot be flagged", url=u["url"], at=u["now"],
-                 slack_us=listed_slack_us(res, u["url"]))
+                 slack_us=listed_slack_us(res, u["url"]), unexamined=True)
         return fails
     if res.applied is None or c.get("probe"):
         return fails
@@ -772,7 +823,11 @@ def oracle(case, res) -> list:
         fail("validator crashed instead of reporting the corruption", crash=res.crashed, applied=res.applied)
         return fails
     if not res.errors:
-        fail("corruption not flagged", applied=res.applied)
+        extra = {}
+        if c["kind"] == "timeline" and case.mode == "live":
+            # the edited entry lies among the leading segments the validator gave up without a request
+            extra = given_up_before_edit(res, c)
+        fail("corruption not flagged", applied=res.applied, **extra)
         return fails
     lines, allow_none = home_lines(case, res)
     located = [e for e in res.errors if (e["start"] is None and allow_none) or (e["start"] in lines)]
@@ -1871,8 +1926,8 @@ def matches_finding(finding, failure):
             case.get("mode") == region.get("mode", case.get("mode"))
     if "skipped_slack_below_us" in region:
         # the listed segment leaves the announced buffer (+ one segment) within the validator's safety margin
-        return bool(c.get("target_url")) and failure.get("slack_us") is not None and \
-            failure["slack_us"] < region["skipped_slack_below_us"] and "without being examined" in failure.get("what", "")
+        return bool(c) and failure.get("unexamined") is True and failure.get("slack_us") is not None and \
+            failure["slack_us"] < region["skipped_slack_below_us"]
     if "initbox" in region:
         return c.get("kind") == "initbox" and c.get("box", "").split("/")[-1] in region["initbox"] and \
             c.get("rep", "").endswith("_enc") and "_v" not in c.get("rep", "")
